@@ -340,9 +340,28 @@ impl Family for Derive {
                 if invalid > 0 {
                     rep.tag(format!("json-invalid-lines:{}", invalid));
                     // re-class the disagreement: which characters make the JSON invalid
+                    let mut cause = String::new();
+                    if case["kind"] == "strings" {
+                        // line 2k / 2k+1 render string number lo+k: which strings are rendered wrongly?
+                        let strs = strings_upto(if ctx.tier == Tier::Quick { 2 } else { 3 });
+                        let lo = case["lo"].as_u64().unwrap() as usize;
+                        let want = String::from_utf8_lossy(&canon(&d.ref_obs.stdout)).into_owned();
+                        let (wl, gl): (Vec<&str>, Vec<&str>) = (want.lines().collect(), c.lines().collect());
+                        let mut only_del_or_tag = wl.len() == gl.len();
+                        for (i, (a, b)) in wl.iter().zip(gl.iter()).enumerate() {
+                            if a != b {
+                                let sv = strs.get(lo + i / 2).cloned().unwrap_or_default();
+                                if !(sv.contains('\u{7f}') || sv.contains('\u{e0001}')) || i % 2 == 1 {
+                                    only_del_or_tag = false;
+                                }
+                            }
+                        }
+                        cause = if only_del_or_tag { ";cause=del-or-tag-character".into() } else { ";cause=other".into() };
+                    }
                     for f in rep.findings.iter_mut() {
                         if f.class.starts_with("sem.stdout") {
                             f.class = "json.invalid".into();
+                            f.site.push_str(&cause);
                         }
                     }
                 }
